@@ -346,12 +346,25 @@ Proof.
   exfalso. apply (H c (or_introl eq_refl)). assumption.
 Qed.
 
+(* what the comment (and value-table) maps need of a bus: the keys the exporter writes are unique *)
+Definition keyed_bus (b : bus) : Prop :=
+  flat_map (fun n => filter (fun m => String.eqb (m_sender m) (n_name n)) (b_messages b)) (b_nodes b) = b_messages b /\
+  NoDup (map (fun n => clear (n_name n)) (b_nodes b)) /\
+  NoDup (map m_canid (b_messages b)) /\
+  (forall m, In m (b_messages b) -> 0 <= m_canid m < 2 ^ 32 /\ NoDup (map (fun s => clear (s_name s)) (m_signals m))).
+
+Lemma plain_keyed : forall b, plain_bus b -> keyed_bus b.
+Proof.
+  intros b [_ [_ [Hnd [_ [_ [Hms [Hcan [_ Hg]]]]]]]]. repeat split; try assumption;
+    rewrite Forall_forall in Hms; destruct (Hms m H) as [_ [_ [_ [_ [_ [Hid [_ [_ [_ [Hnn _]]]]]]]]]]; solve [lia|assumption].
+Qed.
+
 Section CommentsOfPlain.
   Variable b : bus.
-  Hypothesis Hpb : plain_bus b.
+  Hypothesis Hkb : keyed_bus b.
 
   Let Hg : flat_map (fun n => filter (fun m => String.eqb (m_sender m) (n_name n)) (b_messages b)) (b_nodes b) = b_messages b.
-  Proof. destruct Hpb as [_ [_ [_ [_ [_ [_ [_ [_ H]]]]]]]]. exact H. Qed.
+  Proof. destruct Hkb as [H _]. exact H. Qed.
 
   Lemma rest_kinds : forall c, In c (flat_map (node_cms b) (b_nodes b)) -> cm_kind c <> OGeneral.
   Proof.
@@ -387,7 +400,7 @@ Section CommentsOfPlain.
   Lemma node_desc_ok : forall n, In n (b_nodes b) ->
     desc_of String.eqb (clear (n_name n)) (rev (npairs (doc_cms b))) = n_desc n.
   Proof.
-    intros n Hn. destruct Hpb as [_ [_ [Hnd _]]].
+    intros n Hn. destruct Hkb as [_ [Hnd _]].
     apply (desc_of_spec String.eqb String.eqb_eq).
     - intros v Hv. apply in_rev in Hv. apply in_pairs_n in Hv. destruct Hv as [c [Hc [Hk [H1 H2]]]].
       apply in_doc_cms in Hc. destruct Hc as [[_ Hc]|[[n' [Hn' [_ Hc]]]|[m [_ Hc]]]].
@@ -401,14 +414,14 @@ Section CommentsOfPlain.
 
   Lemma canid_u32 : forall m, In m (b_messages b) -> u32 (m_canid m) = m_canid m.
   Proof.
-    intros m Hm. destruct Hpb as [_ [_ [_ [_ [_ [Hms _]]]]]]. rewrite Forall_forall in Hms.
-    destruct (Hms m Hm) as [_ [_ [_ [_ [_ [Hid _]]]]]]. apply u32_id. assumption.
+    intros m Hm. destruct Hkb as [_ [_ [_ Hms]]].
+    destruct (Hms m Hm) as [Hid _]. apply u32_id. assumption.
   Qed.
 
   Lemma msg_desc_ok : forall m, In m (b_messages b) ->
     desc_of Z.eqb (u32 (m_canid m)) (rev (mpairs (doc_cms b))) = m_desc m.
   Proof.
-    intros m Hm. pose proof Hpb as [_ [_ [_ [_ [_ [_ [Hcan _]]]]]]].
+    intros m Hm. pose proof Hkb as [_ [_ [Hcan _]]].
     apply (desc_of_spec Z.eqb Z.eqb_eq).
     - intros v Hv. apply in_rev in Hv. apply in_pairs_m in Hv. destruct Hv as [c [Hc [Hk [H1 H2]]]].
       apply in_doc_cms in Hc. destruct Hc as [[_ Hc]|[[n' [Hn' [_ Hc]]]|[m' [Hm' Hc]]]].
@@ -424,7 +437,7 @@ Section CommentsOfPlain.
   Lemma sig_desc_ok : forall m s, In m (b_messages b) -> In s (m_signals m) ->
     desc_of key_eqb (u32 (m_canid m), clear (s_name s)) (rev (spairs (doc_cms b))) = s_desc s.
   Proof.
-    intros m s Hm Hs. pose proof Hpb as [_ [_ [_ [_ [_ [Hms [Hcan _]]]]]]].
+    intros m s Hm Hs. pose proof Hkb as [_ [_ [Hcan Hms]]].
     apply (desc_of_spec key_eqb key_eqb_eq).
     - intros v Hv. apply in_rev in Hv. apply in_pairs_s in Hv. destruct Hv as [c [Hc [Hk [H1 H2]]]].
       apply in_doc_cms in Hc. destruct Hc as [[_ Hc]|[[n' [Hn' [_ Hc]]]|[m' [Hm' Hc]]]].
@@ -435,7 +448,7 @@ Section CommentsOfPlain.
         assert (m' = m).
         { apply (NoDup_map_inj m_canid (b_messages b)); auto. rewrite <- (canid_u32 m), <- (canid_u32 m') by assumption. auto. }
         subst m'. f_equal.
-        rewrite Forall_forall in Hms. destruct (Hms m Hm) as [_ [_ [_ [_ [_ [_ [_ [_ [_ [Hnn _]]]]]]]]]].
+        destruct (Hms m Hm) as [_ Hnn].
         apply (NoDup_map_inj (fun s => clear (s_name s)) (m_signals m)); auto.
     - intros Hd. apply -> in_rev. apply in_pairs_s. exists (c_sig m s). split; [|cbn; auto].
       apply in_doc_cms. right. right. exists m. split; [assumption|]. apply in_msg_cms. right. exists s. auto.
@@ -802,9 +815,9 @@ Proof.
   unfold export_import. rewrite (export_plain b Hpb).
   unfold text_roundtrip, plain_doc. cbn [d_filename d_nodes d_valtables d_messages d_comments d_attrs d_attrdefs d_attrvals d_valencs d_extmuxes map].
   unfold import. cbn [d_filename d_nodes d_valtables d_messages d_comments d_attrs d_attrdefs d_attrvals d_valencs d_extmuxes].
-  rewrite import_comments_spec, (gdesc_doc b Hpb).
+  rewrite import_comments_spec, (gdesc_doc b (plain_keyed b Hpb)).
   cbn [fold_left bind length fst snd import_ext_muxes].
-  rewrite import_nodes_ok; [|assumption|assumption|assumption|intros n Hin; apply (node_desc_ok b Hpb); assumption].
+  rewrite import_nodes_ok; [|assumption|assumption|assumption|intros n Hin; apply (node_desc_ok b (plain_keyed b Hpb)); assumption].
   cbn [bind].
   set (nd := rev (npairs (doc_cms b))). set (md := rev (mpairs (doc_cms b))). set (sd := rev (spairs (doc_cms b))).
   change (mkienv nd md sd [] []) with (penv nd md sd).
@@ -813,8 +826,8 @@ Proof.
   { unfold nodes'. rewrite map_app, mk_nodes_names. reflexivity. }
   destruct (import_messages_plain nd md sd (map n_name (b_nodes b)) nodes' (b_messages b) (mkistate [] [] []) []) as [st' [F1 F2]];
     try assumption; try reflexivity.
-  - intros m Hin. apply (msg_desc_ok b Hpb). assumption.
-  - intros m s Hin Hs. apply (sig_desc_ok b Hpb); assumption.
+  - intros m Hin. apply (msg_desc_ok b (plain_keyed b Hpb)). assumption.
+  - intros m s Hin Hs. apply (sig_desc_ok b (plain_keyed b Hpb)); assumption.
   - intros r Hr. rewrite Hnames'. apply in_or_app. left. apply in_map_iff in Hr. destruct Hr as [n [Hr Hin]]. subst r.
     apply in_map_iff. exists n. auto.
   - intros r Hr Heq. apply Hdm. apply in_map_iff in Hr. destruct Hr as [n [Hr Hin]]. subst r.
